@@ -28,7 +28,7 @@ Init == l = 1 /\ m = IF Len(Rec) >= 1 THEN Load(1) ELSE [st |-> "none"]
 RECURSIVE ValMatches(_, _)
 ValMatches(mv, ov) ==
   CASE mv.t = "str1" -> ov.t = "str1" \/ (ov.t = "str" /\ Len(ov.s) = 1)
-    [] mv.t = "num" /\ mv.c = "inexact" -> ov.t = "num"
+    [] mv.t = "num" /\ mv.c \in {"inexact", "rat"} -> ov.t = "num"
     [] mv.t = "num" -> ov.t = "num" /\ ov.c = mv.c /\ (mv.c = "fin" => ov.n = mv.n) /\ (mv.c \in {"big", "tiny", "dec"} => ov.s = mv.s /\ ov.d = mv.d)
     [] mv.t = "arr" -> /\ ov.t = "arr" /\ Len(ov.a) = Len(mv.a) /\ Len(ov.d) = Len(mv.d)
                        /\ \A i \in 1..Len(mv.a) : ValMatches(mv.a[i], ov.a[i])
